@@ -91,6 +91,35 @@ inductive PErr
 
 abbrev PRes := Except PErr (Expr × List Tok)
 
+/-- `current_binary_op` -/
+def binaryOf : Tok → Option BinOp
+  | .op o => some o
+  | _ => none
+
+/-- which arm of the `match &self.current.kind` in `parse_prefix` a token selects -/
+inductive PrefixArm
+  | atom (n : Nat)      -- literals, identifiers, calls, CASE, arrays … (opaque primaries)
+  | wildcard            -- `TokenKind::Star`
+  | paren               -- `TokenKind::LParen => parse_paren_expr`
+  | unary (u : UnOp)    -- `Minus` | `Not | Bang` | `Tilde`
+  | unexpected          -- `_ => Err(unexpected .. "expression")`
+  deriving DecidableEq, Repr
+
+def prefixArm : Tok → PrefixArm
+  | .atom n => .atom n
+  | .op .mul => .wildcard
+  | .lparen => .paren
+  | .op .sub => .unary .neg
+  | .notKw => .unary .not
+  | .bang => .unary .not
+  | .tilde => .unary .bitNot
+  | _ => .unexpected
+
+/-- `self.expect(&TokenKind::RParen)` after the inner expression of a parenthesis -/
+def expectRParen (e : Expr) : List Tok → PRes
+  | [] => .error (.eof .rparen)
+  | t :: rest => if t = .rparen then .ok (e, rest) else .error (.unexpected .rparen (t :: rest).length)
+
 mutual
 /-- `parse_expr_bp(min_bp)` entered with `self.depth = depth` -/
 def parseBpN (maxDepth : Nat) : Nat → Nat → Nat → List Tok → PRes
@@ -109,46 +138,36 @@ def parsePrefixN (maxDepth : Nat) : Nat → Nat → List Tok → PRes
   | fuel+1, depth, ts =>
     match ts with
     | [] => .error (.eof .expression)
-    | .atom n :: rest => .ok (.atom n, rest)
-    | .op .mul :: rest => .ok (.wildcard, rest)
-    | .lparen :: rest =>
-      match rest with
-      | .rparen :: rest' => .ok (.unit, rest')
-      | _ =>
+    | t :: rest =>
+      match prefixArm t with
+      | .atom n => .ok (.atom n, rest)
+      | .wildcard => .ok (.wildcard, rest)
+      | .paren =>
+        -- `if self.check(&RParen) { return Tuple([]) }`
+        if rest.head? = some .rparen then .ok (.unit, rest.tail) else
         match parseBpN maxDepth fuel depth 0 rest with
         | .error e => .error e
-        | .ok (e, .rparen :: rest') => .ok (e, rest')
-        | .ok (_, []) => .error (.eof .rparen)
-        | .ok (_, t :: rest') => .error (.unexpected .rparen (t :: rest').length)
-    | .op .sub :: rest =>
-      match parseBpN maxDepth fuel depth PREFIX_BP rest with
-      | .error e => .error e
-      | .ok (e, rest') => .ok (.un .neg e, rest')
-    | .notKw :: rest =>
-      match parseBpN maxDepth fuel depth PREFIX_BP rest with
-      | .error e => .error e
-      | .ok (e, rest') => .ok (.un .not e, rest')
-    | .bang :: rest =>
-      match parseBpN maxDepth fuel depth PREFIX_BP rest with
-      | .error e => .error e
-      | .ok (e, rest') => .ok (.un .not e, rest')
-    | .tilde :: rest =>
-      match parseBpN maxDepth fuel depth PREFIX_BP rest with
-      | .error e => .error e
-      | .ok (e, rest') => .ok (.un .bitNot e, rest')
-    | t :: rest => .error (.unexpected .expression (t :: rest).length)
+        | .ok (e, rest') => expectRParen e rest'
+      | .unary u =>
+        match parseBpN maxDepth fuel depth PREFIX_BP rest with
+        | .error e => .error e
+        | .ok (e, rest') => .ok (.un u e, rest')
+      | .unexpected => .error (.unexpected .expression (t :: rest).length)
 termination_by structural fuel => fuel
 /-- the `loop { … }` of `parse_expr_bp` with the current `lhs` -/
 def ploopN (maxDepth : Nat) : Nat → Nat → Nat → Expr → List Tok → PRes
   | 0, _, _, _, _ => .error .fuel
   | fuel+1, depth, minBp, lhs, ts =>
     match ts with
-    | .op o :: rest =>
-      if lbp o < minBp then .ok (lhs, .op o :: rest) else
-      match parseBpN maxDepth fuel depth (rbp o) rest with
-      | .error e => .error e
-      | .ok (rhs, rest') => ploopN maxDepth fuel depth minBp (.bin lhs o rhs) rest'
-    | _ => .ok (lhs, ts)
+    | [] => .ok (lhs, [])
+    | t :: rest =>
+      match binaryOf t with
+      | none => .ok (lhs, t :: rest)
+      | some o =>
+        if lbp o < minBp then .ok (lhs, t :: rest) else
+        match parseBpN maxDepth fuel depth (rbp o) rest with
+        | .error e => .error e
+        | .ok (rhs, rest') => ploopN maxDepth fuel depth minBp (.bin lhs o rhs) rest'
 termination_by structural fuel => fuel
 end
 
